@@ -61,9 +61,16 @@ theorem tCTb_empty (t : TableName) (ine : Bool) : tCTb (emptyCreate t ine) = tTN
   rw [tCTb_eq]; simp [emptyCreate, tDCs_nil, tOIdx_none, tIdxs_nil, tFKs_nil, tOS_none, tOI_none, tCSs_nil]
 theorem hasElem_empty (t : TableName) (ine : Bool) : HasElem (emptyCreate t ine) = false := by simp [HasElem, emptyCreate]
 
+/-- the result is a CREATE TABLE ( … ) or an ALTER TABLE statement: the classes whose token run needs `ddlRunOK` -/
+def isDdlRes : Stmt → Bool | .createTable _ => true | .alter _ _ => true | _ => false
+/-- the classes outside `FullStmt` -/
+def isNewRes : Stmt → Bool | .createTable _ => true | .alter _ _ => true | .set _ => true | _ => false
+theorem fullD_old (s : Stmt) (h : isNewRes s = false) : FullDStmt s = FullStmt s := by
+  cases s <;> simp [isNewRes, FullDStmt, FullStmt] at h ⊢
+
 /-! ### CREATE TABLE -/
 theorem pCreateTable_acc (T : List String) (d : Gen.D) (f : Nat) (ts : List Tok) (s : Stmt) (r : List Tok) (h : pCreateTable d f ts = .ok (s, r)) :
-    ∃ used, ts = used ++ r ∧ (ddlRunOK used = true → FullDStmt s = true → Sub (tStmt s) T → AccAllD T used) := by
+    ∃ used, ts = used ++ r ∧ ((isDdlRes s = true → ddlRunOK used = true) → FullDStmt s = true → Sub (tStmt s) T → AccAllD T used) := by
   have kCT : allKw ["CREATE", "TABLE"] = true := by decide
   have kIF : kwOk "IF" = true := by decide
   have kNOT : kwOk "NOT" = true := by decide
@@ -103,6 +110,7 @@ theorem pCreateTable_acc (T : List String) (d : Gen.D) (f : Nat) (ts : List Tok)
               have E := e0.trans (congrArg (u0 ++ ·) (eI.trans (congrArg (uI ++ ·) (eT.trans (congrArg (uT ++ ·) (e1.trans
                 (congrArg (g :: ·) (eO.trans (congrArg (uO ++ ·) eS)))))))))
               refine ⟨u0 ++ (uI ++ (uT ++ (g :: (uO ++ uS)))), by simpa using E, fun hok hf hs => ?_⟩
+              have hok := hok rfl
               simp only [ddlRunOK, Bool.and_eq_true] at hok
               obtain ⟨hseg, hpk, hno, _, hga⟩ := hok
               have hseg := (segsOKb_iff _).1 hseg
@@ -130,6 +138,160 @@ theorem pCreateTable_acc (T : List String) (d : Gen.D) (f : Nat) (ts : List Tok)
               have aG : AccAllD T [g] := accAllD_one (.group hgr (accAll_splitBy T g.children aE))
               exact accAllD_append (accAllD_of_acc (accAll_kws k0)) (accAllD_append (accAllD_of_acc (accAll_kws kI))
                 (accAllD_append (accAllD_of_acc (kT rfl s2)) (accAllD_append aG (accAllD_append aO (accAllD_of_acc (accAll_kws kS))))))
+
+/-! ### ALTER TABLE … ADD / MODIFY / CHANGE -/
+theorem tAO_add (x : ColOrIdx) : tAO (.add x) = tCOI x := by simp [tAO, AlterOp.toVal, tCOI, Val.texts, Val.textsF]
+theorem tAO_modify (x : ColOrIdx) : tAO (.modify x) = tCOI x := by simp [tAO, AlterOp.toVal, tCOI, Val.texts, Val.textsF]
+theorem tAO_change (n : String) (x : ColOrIdx) : tAO (.change n x) = n :: tCOI x := by simp [tAO, AlterOp.toVal, tCOI, Val.texts, Val.textsF]
+theorem FullDAOs_append (a b : List AlterOp) : FullDAOs (a ++ b) = (FullDAOs a && FullDAOs b) := by
+  induction a with
+  | nil => simp [FullDAOs]
+  | cons x a ih => simp [FullDAOs, ih, Bool.and_assoc]
+
+theorem pAlterExpr_acc (T : List String) (d : Gen.D) (f : Nat) (ts : List Tok) (x : AlterOp) (r : List Tok) (h : pAlterExpr d f ts = .ok (x, r)) :
+    ∃ used, ts = used ++ r ∧ (NoRep used = true → FullDAO x = true → Sub (tAO x) T → AccAll T used) := by
+  have kADD : kwOk "ADD" = true := by decide
+  have kMODIFY : kwOk "MODIFY" = true := by decide
+  have kCHANGE : kwOk "CHANGE" = true := by decide
+  have h0 := h
+  unfold pAlterExpr at h
+  peelD
+  · split_run <;> first | (simp at h; done) | (simp at h; obtain ⟨rfl, rfl⟩ := h; obtain ⟨u1, e, ha⟩ := ar_used (accS_pAlterExpr T d f ts) h0 (pAlterExpr_consumes d f _ _ _ h0); exact ⟨u1, e, fun _ hf hs => ha hf hs⟩)
+  peelD
+  · split_run <;> first | (simp at h; done) | (simp at h; obtain ⟨rfl, rfl⟩ := h; obtain ⟨u1, e, ha⟩ := ar_used (accS_pAlterExpr T d f ts) h0 (pAlterExpr_consumes d f _ _ _ h0); exact ⟨u1, e, fun _ hf hs => ha hf hs⟩)
+  peelD
+  · obtain ⟨t, e, ht⟩ := sUp1 hcnd
+    split at h
+    · rename_i y r1 hp; simp at h; obtain ⟨rfl, rfl⟩ := h
+      obtain ⟨u1, e1, ha⟩ := pColOrIdx_acc T d f _ _ _ hp
+      refine ⟨t :: u1, by rw [e, e1] <;> simp, fun hr hf hs => ?_⟩
+      have : t :: u1 = [t] ++ u1 := rfl
+      rw [this, accAll_append]
+      exact ⟨accAll_kws (by simp; exact srcEqUp_kw ht kADD), ha (NoRep_sfx (a := [t]) hr) hf (by simpa [tAO_add] using hs)⟩
+    · simp at h
+  peelD
+  · obtain ⟨t, e, ht⟩ := sUp1 hcnd
+    split at h
+    · rename_i y r1 hp; simp at h; obtain ⟨rfl, rfl⟩ := h
+      obtain ⟨u1, e1, ha⟩ := pColOrIdx_acc T d f _ _ _ hp
+      refine ⟨t :: u1, by rw [e, e1] <;> simp, fun hr hf hs => ?_⟩
+      have : t :: u1 = [t] ++ u1 := rfl
+      rw [this, accAll_append]
+      exact ⟨accAll_kws (by simp; exact srcEqUp_kw ht kMODIFY), ha (NoRep_sfx (a := [t]) hr) hf (by simpa [tAO_modify] using hs)⟩
+    · simp at h
+  peelD
+  · obtain ⟨t, e, ht⟩ := sUp1 hcnd
+    split at h
+    · simp at h
+    · rename_i n r0 hn
+      obtain ⟨tn, en, rfl⟩ := popSrc_ok hn
+      split at h
+      · rename_i y r1 hp; simp at h; obtain ⟨rfl, rfl⟩ := h
+        obtain ⟨u1, e1, ha⟩ := pColOrIdx_acc T d f _ _ _ hp
+        refine ⟨t :: tn :: u1, by rw [e, en, e1] <;> simp, fun hr hf hs => ?_⟩
+        have : t :: tn :: u1 = [t, tn] ++ u1 := rfl
+        rw [tAO_change, sub_cons] at hs
+        rw [this, accAll_append]
+        refine ⟨?_, ha (NoRep_sfx (a := [t, tn]) hr) hf hs.2⟩
+        simp only [accAll_cons, accAll_nil, and_true]
+        exact ⟨.kw (srcEqUp_kw ht kCHANGE), .name hs.1⟩
+      · simp at h
+  all_goals (split_run <;> first | (simp at h; done) | (simp at h; obtain ⟨rfl, rfl⟩ := h; obtain ⟨u1, e, ha⟩ := ar_used (accS_pAlterExpr T d f ts) h0 (pAlterExpr_consumes d f _ _ _ h0); exact ⟨u1, e, fun _ hf hs => ha hf hs⟩))
+
+theorem alterLoop_acc (T : List String) (d : Gen.D) (f : Nat) : ∀ g acc ts v r, alterLoop d f g acc ts = .ok (v, r) →
+    ∃ used, ts = used ++ r ∧ (NoRep used = true → FullDAOs v = true →
+      FullDAOs acc = true ∧ (Sub (tAOs v) T → AccAll T used ∧ Sub (tAOs acc) T)) := by
+  have kC : kwOk "," = true := by decide
+  intro g
+  induction g with
+  | zero => intro acc ts v r h; simp [alterLoop] at h
+  | succ g ih =>
+    intro acc ts v r h
+    unfold alterLoop at h
+    peelD
+    · obtain ⟨t, r0, rfl, ht⟩ := searchStr_head hcnd
+      simp only [List.drop_succ_cons, List.drop_zero] at h
+      split at h
+      · rename_i x r1 hp
+        obtain ⟨u1, e1, ha⟩ := pAlterExpr_acc T d f _ _ _ hp
+        obtain ⟨u2, e2, k⟩ := ih _ _ _ _ h
+        refine ⟨t :: (u1 ++ u2), by rw [e1, e2]; simp, fun hr hf => ?_⟩
+        have hr2 : NoRep u2 = true := NoRep_sfx (a := t :: u1) (by simpa using hr)
+        have hr1 : NoRep u1 = true := NoRep_pfx (b := u2) (NoRep_sfx (a := [t]) (by simpa using hr))
+        obtain ⟨f1, k1⟩ := k hr2 hf
+        rw [FullDAOs_append] at f1
+        simp only [FullDAOs, Bool.and_true, Bool.and_eq_true] at f1
+        refine ⟨f1.1, fun hs => ?_⟩
+        obtain ⟨a2, s2⟩ := k1 hs
+        rw [tAOs_append, tAOs_one, sub_append] at s2
+        refine ⟨?_, s2.1⟩
+        have : t :: (u1 ++ u2) = [t] ++ (u1 ++ u2) := rfl
+        rw [this, accAll_append, accAll_append]
+        exact ⟨accAll_kws (by simp; exact srcEq_kw (by simpa [Tok.srcEq] using ht) kC), ha hr1 f1.2 s2.2, a2⟩
+      · simp at h
+    · simp at h; obtain ⟨rfl, rfl⟩ := h
+      exact ⟨[], by simp, fun _ hf => ⟨hf, fun hs => ⟨by simp [AccAll], hs⟩⟩⟩
+
+theorem pAlter_acc (T : List String) (d : Gen.D) (f : Nat) (ts : List Tok) (s : Stmt) (r : List Tok) (h : pAlter d f ts = .ok (s, r)) :
+    ∃ used, ts = used ++ r ∧ ((isDdlRes s = true → ddlRunOK used = true) → FullDStmt s = true → Sub (tStmt s) T → AccAllD T used) := by
+  have kAT : allKw ["ALTER", "TABLE"] = true := by decide
+  unfold pAlter at h
+  split at h
+  · simp at h
+  · rename_i u r0 hm
+    split at h
+    · simp at h
+    · rename_i tbl r1 ht
+      split at h
+      · simp at h
+      · rename_i x r2 hx
+        split at h
+        · rename_i xs r3 hl
+          simp at h; obtain ⟨rfl, rfl⟩ := h
+          obtain ⟨u0, e0, k0⟩ := matchSeq_kw _ ts kAT _ _ hm
+          obtain ⟨uT, eT, kT⟩ := ar_used (accS_pTblName T _) ht (pTblName_consumes _ _ _ ht)
+          obtain ⟨u1, e1, k1⟩ := pAlterExpr_acc T d f _ _ _ hx
+          obtain ⟨u2, e2, k2⟩ := alterLoop_acc T d f _ _ _ _ _ hl
+          have E := e0.trans (congrArg (u0 ++ ·) (eT.trans (congrArg (uT ++ ·) (e1.trans (congrArg (u1 ++ ·) e2)))))
+          refine ⟨u0 ++ (uT ++ (u1 ++ u2)), by simpa using E, fun hok hf hs => ?_⟩
+          have hok := hok rfl
+          simp only [ddlRunOK, Bool.and_eq_true] at hok
+          obtain ⟨_, _, _, hnr, _⟩ := hok
+          have hnr2 : NoRep u2 = true := NoRep_sfx (a := u0 ++ (uT ++ u1)) (by simpa using hnr)
+          have hnr1 : NoRep u1 = true := NoRep_pfx (b := u2) (NoRep_sfx (a := u0 ++ uT) (by simpa using hnr))
+          have hf : FullDAOs xs = true := hf
+          rw [tStmt_alter, sub_append] at hs
+          obtain ⟨f1, k3⟩ := k2 hnr2 hf
+          obtain ⟨a2, s2⟩ := k3 hs.2
+          simp only [FullDAOs, Bool.and_true] at f1
+          rw [tAOs_one] at s2
+          exact accAllD_of_acc (by
+            rw [accAll_append, accAll_append, accAll_append]
+            exact ⟨accAll_kws k0, kT rfl hs.1, k1 hnr1 f1 s2, a2⟩)
+        · simp at h
+
+/-! ### SET -/
+theorem tStmt_set (c : ConfigStr) : tStmt (.set c) = tCS c := by simp [tStmt, Stmt.toVal, ConfigStr.toVal, tCS, Val.texts, Val.textsF]
+theorem pSet_acc (T : List String) (ts : List Tok) (s : Stmt) (r : List Tok) (h : pSet ts = .ok (s, r)) :
+    ∃ used, ts = used ++ r ∧ (Sub (tStmt s) T → AccAllD T used) := by
+  have kSET : kwOk "SET" = true := by decide
+  unfold pSet at h
+  split at h
+  · simp at h
+  · rename_i u r0 hm
+    split at h
+    · rename_i c r1 hc
+      simp at h; obtain ⟨rfl, rfl⟩ := h
+      obtain ⟨t, rfl, ht⟩ := matchKw_ok hm kSET
+      obtain ⟨u1, e1⟩ := pConfigStrExpr_consumes _ _ _ hc
+      refine ⟨t :: u1, by rw [e1]; simp, fun hs => ?_⟩
+      rw [tStmt_set] at hs
+      have h3 := pConfigStrExpr_acc T hc hs
+      obtain ⟨w, ew, hw⟩ := h3
+      have : w = u1 := List.append_cancel_right (ew.symm.trans e1)
+      subst this
+      exact accAllD_append (accAllD_one (.kw ht)) hw
+    · simp at h
 
 end Ddl
 end PA
